@@ -577,13 +577,13 @@ def ws_int(s, lo, hi, parts):
 
 
 def yang_str_len(s):
-    """number of characters when s is a string of YANG-string characters as ly_checkutf8 reads them (valid UTF-8 of
-    scalar values, no C0 controls but TAB LF CR), else None"""
+    """number of characters when s is a string of yang-char (RFC 7950 section 14: valid UTF-8 of scalar values, no C0
+    control but TAB LF CR, no non-characters), else None"""
     try:
         t = s.decode("utf-8")
     except UnicodeDecodeError:
         return None
-    if any(ord(c) < 0x20 and c not in "\t\n\r" for c in t):
+    if not all(gens.is_yang_char(ord(c)) for c in t):
         return None
     return len(t)
 
@@ -808,6 +808,8 @@ def rfc_witness(line, o):
         if o == want:
             return None
         tag = None
+        if T in ("s", "sl") and want == "E" and o == hexs(s) and has_nonchar(s):
+            tag = "str-nonchar"
         if T == "bin" and nonzero_pad_bits(s) and want != "E" and o.split(" ")[1:] == want.split(" ")[1:] and o.split(" ")[0] == hexs(b64_strip_nl(s)):
             tag = "binary-pad-bits"
         return tag, "value %r of %s: implementation %s, RFC 7950 %s" % (s, T, o, want)
@@ -843,6 +845,16 @@ def rfc_witness(line, o):
             tag = "binary-pad-bits"
         return tag, "sorted insertion of %r then %r on %s: implementation %s, expected %s" % (a, b, T, o, want)
     return None
+
+
+def has_nonchar(s):
+    """valid UTF-8 of scalar values without forbidden controls whose only problem is a Unicode noncharacter"""
+    try:
+        t = s.decode("utf-8")
+    except UnicodeDecodeError:
+        return False
+    bad = [c for c in t if not gens.is_yang_char(ord(c))]
+    return bool(bad) and all(0xFDD0 <= ord(c) <= 0xFDEF or (ord(c) & 0xFFFE) == 0xFFFE and ord(c) > 0xFFFF for c in bad)
 
 
 def b64_strip_nl(s):
